@@ -18,6 +18,8 @@ def plan(tier, seed):
                  alpha="ab ", nmax=4),
             dict(space="k4only", win=(seed, 40), lexmaps=("M0", "M3"),
                  wss=("",), alpha="ab", nmax=4),
+            dict(space="r4", win=(seed, 4), lexmaps=("M0",), wss=("",),
+                 alpha="a", nmax=7),
         ]
     return [
         dict(space="k3", lexmaps=ALL, wss=("", " "), alpha="ab", nmax=5),
@@ -28,6 +30,7 @@ def plan(tier, seed):
              alpha="ab", nmax=4),
         dict(space="r3", lexmaps=("M0",), wss=("",), alpha="ab", nmax=4),
         dict(space="n3", lexmaps=("M0",), wss=("",), alpha="ab", nmax=4),
+        dict(space="r4", lexmaps=("M0",), wss=("",), alpha="a", nmax=8),
     ]
 
 
